@@ -57,6 +57,18 @@ def sample_script(fam):
         return {"family": fam["name"], "error": str(e)}
 
 
+def more_seeds(specs, tier, extra=2):
+    """Thorough tier: the same families again with further seeds (other pseudo-random contents and samples)."""
+    if tier != "thorough":
+        return list(specs)
+    out = list(specs)
+    for k in range(1, extra + 1):
+        for fs in specs:
+            if "seed" in fs:
+                out.append(dict(fs, name="%s-s%d" % (fs["name"], k), seed=fs["seed"] + k))
+    return out
+
+
 def fam_cov(fams):
     return [{"family": f["name"], "scripts": f["scripts"], "events": f["events"], "consumed": f["consumed"],
              "times_s": f["times"], "params": f["subst"]} for f in fams]
@@ -234,6 +246,7 @@ def hs_check(pid, tier, seed, work, fam_specs, mc=True, mutants=()):
         if not ok:
             raise vlib.Inconclusive("model mutant %s did not violate %s: the invariant is vacuous" % (cfg, inv))
         killed.append({"cfg": cfg, "violates": inv})
+    fam_specs = more_seeds(fam_specs, tier)
     with cf.ThreadPoolExecutor(max_workers=3) as ex:
         fams = list(ex.map(lambda fs: F.handshake_family(work, **fs), fam_specs))
     require_accepted(fams)
@@ -287,7 +300,8 @@ def walk_check(pid, tier, seed, work, mcs_spec, mutants, fam_specs, rule):
             raise vlib.Inconclusive("model mutant %s did not violate %s" % (cfg, inv))
         killed.append({"cfg": cfg, "violates": inv})
     fams = []
-    for fs in fam_specs:
+    for fs in more_seeds(fam_specs, tier, extra=1):
+        fs = dict(fs)
         kind = fs.pop("kind", "walk")
         fams.append(F.handshake_family(work, **fs) if kind == "handshake" else F.walk_family(work, **fs))
     require_accepted(fams)
@@ -435,6 +449,7 @@ VEC_ASSUME = ["TLC 1.8 evaluates the specification tables (Layout/LayerTables/Pr
 
 
 def vec_check(pid, tier, seed, work, fam_specs, rule, level="exploration"):
+    fam_specs = more_seeds(fam_specs, fam_specs[0].get("tier", "quick") if fam_specs else "quick")
     with cf.ThreadPoolExecutor(max_workers=4) as ex:
         fams = list(ex.map(lambda fs: F.vector_family(work, **fs), fam_specs))
     require_accepted(fams)
